@@ -423,3 +423,51 @@ theorem join_endswith_iff (a n m : Path) (ha : a ≠ []) (hn : Plain n) (hm : '/
     exact ⟨a', rfl⟩
 
 end ASV.PosixPath
+
+namespace ASV.PosixPath
+
+/-! ### components of a normalised absolute path are plain names -/
+
+theorem normStep_rooted_plain (acc : List Path) (comp : Path) (hacc : ∀ c ∈ acc, Plain c)
+    (hcomp : '/' ∉ comp) : ∀ c ∈ normStep true acc comp, Plain c := by
+  unfold normStep
+  split
+  · exact hacc
+  · rename_i h1
+    split
+    · rename_i h2
+      intro c hc
+      rcases List.mem_cons.1 hc with rfl | hc
+      · have hne : c ≠ [] ∧ c ≠ dot := by
+          constructor <;> intro e <;> simp [e] at h1
+        have hdd : c ≠ dotdot := by
+          intro e
+          subst e
+          have : acc.head? = some dotdot := by simpa using h2
+          cases acc with
+          | nil => simp at this
+          | cons a as =>
+            have ha := hacc a (List.mem_cons_self ..)
+            simp only [List.head?_cons, Option.some.injEq] at this
+            exact ha.2.2.1 this
+        exact ⟨hne.1, hne.2, hdd, hcomp⟩
+      · exact hacc c hc
+    · intro c hc
+      exact hacc c (List.mem_of_mem_tail hc)
+
+theorem foldl_normStep_rooted_plain : ∀ (comps : List Path) (acc : List Path),
+    (∀ c ∈ acc, Plain c) → (∀ c ∈ comps, '/' ∉ c) → ∀ c ∈ comps.foldl (normStep true) acc, Plain c
+  | [], acc, hacc, _ => hacc
+  | x :: xs, acc, hacc, hc => by
+      simp only [List.foldl_cons]
+      exact foldl_normStep_rooted_plain xs _
+        (normStep_rooted_plain acc x hacc (hc x (List.mem_cons_self ..)))
+        fun c h => hc c (List.mem_cons_of_mem _ h)
+
+/-- no `.`, no `..`, no empty component survives in an absolute path's normal form -/
+theorem normComps_rooted_plain (p : Path) : ∀ c ∈ normComps true (splitSlash p), Plain c := by
+  intro c hc
+  simp only [normComps, List.mem_reverse] at hc
+  exact foldl_normStep_rooted_plain _ [] (by simp) (splitSlash_noSlash p) c hc
+
+end ASV.PosixPath
